@@ -21,6 +21,7 @@ class SeriesAlg:
 
     def __init__(self, var_square):
         self.var_square = var_square
+        self.laurent = False        # True: quotients may carry negative powers (checked by the user)
         self.D2R = 'D2R'
         self.R2D = 'R2D'
 
@@ -62,14 +63,14 @@ class SeriesAlg:
         va = self.val(a)
         if va is None:
             return Ser({})
-        if va < vb:
+        if va < vb and not self.laurent:
             raise ValueError('series has a pole')
-        # shift both by vb, then long division
+        # shift both by vb, then long division (negative exponents only in Laurent mode)
         bb = {k - vb: v for k, v in b.c.items()}
         aa = {k - vb: v for k, v in a.c.items()}
         q = {}
         rem = dict(aa)
-        for k in range(0, ORDER + 1):
+        for k in range(min(0, va - vb), ORDER + 1):
             ck = rem.get(k, 0)
             if not ck:
                 continue
@@ -96,7 +97,7 @@ class SeriesAlg:
         raise ValueError('sqrt of a general series')
 
     def _compose(self, a, coeffs):
-        if a.c.get(0):
+        if a.c.get(0) or any(k < 0 for k in a.c):
             raise ValueError('series argument with constant term')
         out = Ser({})
         p = self.const(1)
